@@ -105,7 +105,8 @@ CTL_STACKS = [("A", [("oprobe", "const")]), ("A", [("oprobe", "cond")]), ("A", [
 def program_sets(tier):
     """General menu at the common size bound with the full stack list; a control-flow menu one size
     larger (else suites, handlers, finally blocks) with a short stack list."""
-    return [("gen", dict()), ("ctl", dict(size=C.SIZE[tier] + 1, only=SMALL_CTL, key=("c04ctl", tier)))]
+    return [("gen", dict()), ("ctl", dict(size=C.SIZE[tier] + 1, only=SMALL_CTL, key=("c04ctl", tier))),
+            C.odd_set(tier)]
 
 
 def units(tier):
